@@ -43,6 +43,7 @@ type World struct {
 	logPos int
 	segPos int
 	extraOK func(real string) bool // additional paths the confinement invariant accepts
+	tmpElsewhere bool // scenario: <base>/.tmp is a symlink to another device
 	followUp  bool // C08: after recovery, carry on with another update
 	followSet int
 	cfgPath string
